@@ -38,7 +38,7 @@ fn cell_for(c: &Case) -> CellDesc {
     }
     cell.envs = match c.layout {
         // a block next to the shoulder that the upper arm hits when J2 swings
-        20 => vec![EnvObj { lo: [0.45, -0.3, 0.45], hi: [0.75, 0.3, 0.75], subdiv: 1, pose: Iso::identity() }],
+        20 => vec![EnvObj { lo: [0.45, -0.3, 0.45], hi: [0.75, 0.3, 0.75], subdiv: 1, pose: Iso::identity(), shape: 0 }],
         k => env_layout(k),
     };
     cell.safety = if c.safety == 0 { SafetyDesc::touch(0) } else { SafetyDesc { to_env: 0.03, to_robot: 0.03, special: vec![], mode: 0 } };
